@@ -93,6 +93,14 @@ class Bio(Suite):
         W2 = [[[5], [1], [6], [2], [7], [4], [8, 3]], [[1], [3, 4, 6], [7], [2, 5], [8]], [[3], [4], [5, 7], [8], [6], [1, 2]]]
         corpus = [{"s": gen.UNIFYING, "D": W, "starters": st, "one": one, "as_tuple": tup}
                   for W, st in ((W1, "borda"), (W2, "copeland")) for one in (True, False) for tup in (True, False)]
+        # three datasets on which the two Borda variants (bucket sizes / bucket ids) disagree and the consensus of one of them is strictly
+        # better than the local optimum reached from the other: both are starting points, the result must not be worse than either
+        W3 = [[[4], [2, 3], [1, 5, 6]], [[4, 5], [6], [3], [1], [2]], [[4], [5], [1], [2], [6], [3]], [[1, 2, 3, 4, 5, 6]]]
+        W4 = [[[1, 2, 4], [5], [3]], [[3, 4], [2, 5], [1]], [[1, 3, 5], [2], [4]]]
+        W5 = [[[1, 4], [2, 3]], [[3], [4], [2], [1]], [[4], [1, 2, 3]], [[2], [3], [1, 4]], [[1], [2], [3], [4]]]
+        corpus += [{"s": sch, "D": W, "starters": st, "one": one, "as_tuple": False}
+                   for W, sch in ((W3, gen.UNIFYING), (W4, gen.UNIFYING_HALF), (W5, gen.UNIFYING_HALF))
+                   for st in ("borda+borda_bid", "borda_bid+borda") for one in (True, False)]
         cases = corpus + [{"s": gen.GENERIC, "D": [[[3]], [[2]], [[1], [2]]], "starters": "none", "one": False},   # F3 witness
                  {"s": gen.UNIFYING, "D": [[[1]], [[3], [2]]], "starters": "none", "one": False}]       # F4: id orders differ
         for _ in range(260 if tier == "quick" else 4000):
